@@ -1069,6 +1069,10 @@ func (vc *VC) preludeText() string {
 			// the empty byte string: whatever array it is read from; its value is 0
 			b.WriteString("(assert (forall ((a (Array " + is + " " + vc.intSort(8).Name + ")) (o " + is + ")) (! (= (bytes-of a o " + vc.idxLit(0).S + ") bytes-nil) :pattern ((bytes-of a o " + vc.idxLit(0).S + ")))))\n")
 			b.WriteString("(assert (= (beval bytes-nil) 0))\n")
+			if vc.needPadLemma && vc.mode == ModeMath {
+				// a store outside a window does not change the byte string read through the window
+				b.WriteString("(assert (forall ((a (Array Int Int)) (i Int) (v Int) (o Int) (l Int)) (! (=> (or (< i o) (>= i (+ o l))) (= (bytes-of (store a i v) o l) (bytes-of a o l))) :pattern ((bytes-of (store a i v) o l)))))\n")
+			}
 		}
 	}
 	if vc.needStr {
